@@ -613,6 +613,14 @@ impl ArrayBuffer {
                     .with_message("ArrayBuffer.prototype.resize called with invalid `this`")
             })?;
 
+        // A fixed-length buffer doesn't have an [[ArrayBufferMaxByteLength]] internal slot, and
+        // step 2 must throw before the argument is converted.
+        if buf.borrow().data().is_fixed_len() {
+            return Err(JsNativeError::typ()
+                .with_message("ArrayBuffer.resize: cannot resize a fixed-length buffer")
+                .into());
+        }
+
         // 4. Let newByteLength be ? ToIndex(newLength).
         let new_byte_length = args.get_or_undefined(0).to_index(context)?;
 
